@@ -25,6 +25,7 @@ pub struct Monitors {
     pub workers: bool,
     pub links: bool,
     pub fifo: bool,
+    pub routing: bool,
 }
 
 pub struct JobCheck {
@@ -41,10 +42,10 @@ impl JobCheck {
     fn opts(&self, tier: Tier, shrinking: bool) -> RunOpts {
         let m = self.monitors;
         RunOpts {
-            probes: m.grammar || m.per_iteration || m.alignment || m.loop_state || m.fifo,
-            stamp: m.alignment || m.fifo,
+            probes: m.grammar || m.per_iteration || m.alignment || m.loop_state || m.fifo || m.routing,
+            stamp: m.alignment || m.fifo || m.routing,
             match_links: m.links,
-            record_links: false,
+            record_links: m.routing,
             crash: None,
             watchdog: Some(watchdog(tier, shrinking)),
         }
@@ -86,6 +87,10 @@ impl JobCheck {
                 .map(|e| e.0)
                 .collect();
             mon::stamped_fifo(&g, &edges, &bc)?;
+        }
+        if m.routing {
+            let st = mon::routing(run)?;
+            *run.routing_stats.borrow_mut() = Some(st);
         }
         if m.loop_state {
             mon::loop_state_alignment(&g, reference)?;
@@ -261,6 +266,51 @@ pub fn c02() -> JobCheck {
             let n: u64 = lc.values().map(|v| v.0).sum();
             *rep.extra.entry("batches_matched".into()).or_insert(json!(0u64)) =
                 json!(rep.extra.get("batches_matched").and_then(|v| v.as_u64()).unwrap_or(0) + n);
+        },
+    }
+}
+
+pub fn c03() -> JobCheck {
+    JobCheck {
+        id: "C03",
+        profile: || Profile {
+            name: "c03",
+            w_repart: 40,
+            w_simple: 12,
+            w_keyed_agg: 8,
+            w_fork: 8,
+            w_diamond: 10,
+            w_with: 8,
+            w_route: 8,
+            w_broadcast: 6,
+            w_replay: 2,
+            w_iterate: 1,
+            w_comb: [3, 1, 8],
+            max_input: 500,
+            ..Profile::base()
+        },
+        monitors: Monitors { routing: true, ..Monitors::default() },
+        k: (3, 4),
+        cases: (300, 7000),
+        nontrivial: |_f, _j, _c, run| {
+            run.routing_stats
+                .borrow()
+                .as_ref()
+                .map_or(false, |s| s.group_edges_with_2_keys_2_replicas >= 1 || s.multi_downstream >= 1)
+        },
+        classes: |_f, _j, _c, run, rep| {
+            if let Some(s) = run.routing_stats.borrow().as_ref() {
+                let mut add = |k: &str, v: u64| {
+                    let e = rep.extra.entry(k.to_string()).or_insert(json!(0u64));
+                    *e = json!(e.as_u64().unwrap_or(0) + v);
+                };
+                add("elements_traced_to_endpoints", s.elements);
+                add("forward_deliveries_checked", s.forward);
+                add("broadcast_deliveries_checked", s.broadcast);
+                add("control_links_checked", s.control_links);
+                rep.class_if(s.group_edges_with_2_keys_2_replicas >= 1, "run:group_by_edge_with_2_keys_2_replicas");
+                rep.class_if(s.multi_downstream >= 1, "run:producer_with_2_downstream_blocks");
+            }
         },
     }
 }
@@ -448,6 +498,7 @@ fn mk(id: &'static str, rule: &'static str, assumptions: &'static [&'static str]
 pub fn by_id(id: &str) -> JobCheck {
     match id {
         "C02" => c02(),
+        "C03" => c03(),
         "C04" => c04(),
         "C05" => c05(),
         "C07" => c07(),
@@ -468,6 +519,7 @@ const COMMON: &[&str] = &[
 pub fn defs() -> Vec<CheckDef> {
     vec![
         mk("C02", "random jobs biased to repartitioning, small batches and padded (up to 70 kB) elements, 2-3 deployments each; observer hook records every batch at NetworkSender::send and matches every received batch against the head of its link's queue (kinds, timestamps, element digests), all queues empty at the end; stamped sequence numbers arrive in order and on one consumer only; non-trivial = some link carried >= 3 batches; distinct = hash of (job, configuration)", COMMON, c02),
+        mk("C03", "random jobs dense in repartitioning (forward incl. narrowing, group_by, repartition_by into Limited/Host/One blocks, shuffle, broadcast, route, split with several downstream blocks, hash- and broadcast-shipped joins), replica counts equal/coprime/1/heterogeneous; every element is stamped by the last operator of its block and traced, through the send hook, to the endpoints it was enqueued to; oracle per downstream block: forward = one endpoint, the same-index replica when it exists; group-by = one endpoint, a function of the key alone across all producers and both join inputs; shuffle = one; broadcast = every replica once; route = exactly one replica of the first matching route's block, nothing for unmatched elements; every FlushAndRestart and Terminate a producer emits is sent to every connected endpoint; non-trivial = a group-by edge with >= 2 keys and >= 2 consumer replicas, or a producer with >= 2 downstream blocks", COMMON, c03),
         mk("C04", "random jobs biased to loops, side inputs, diamonds, empty inputs and small batches; oracle: every host's execute_blocking returns, every worker that started ended without panic, every sink handle yields its complete result on exactly the prescribed hosts; a deadlock is declared by the quiescence watchdog (no engine event for 10 s / 20 s with all live workers parked in a channel operation or flat CPU time); non-trivial = loop, diamond, empty source or a link with > 16 batches", COMMON, c04),
         mk("C05", "random jobs with a probe after every stage (incl. inside loop bodies); oracle: (a) each replica's sequence at each probe matches ((Item|Timestamped|Watermark|FlushBatch)* FlushAndRestart)+ Terminate, (b) elements stamped in producer iteration k are observed in consumer iteration k on pass-through edges, (c) per probe and iteration the multiset over all replicas equals the reference interpreter's round (all results before the marker, nothing carried over); non-trivial = loop present, or >= 2 replicas and a repartitioning edge", COMMON, c05),
         mk("C07", "random jobs dense in the 10 keyed and 4 global aggregation forms (top level, behind shuffles, inside replay bodies), key counts 1..64, skewed/empty inputs; oracle: per probe and iteration the observed multiset equals the sequential fold per key (one result per occurring key, none for an empty input), hence two-phase forms equal shuffle-then-aggregate forms; sinks equal the reference; non-trivial = aggregation, >= 2 replicas, >= 4 input elements", COMMON, c07),
